@@ -21,7 +21,8 @@ CFG = {
     "known_matcher": _c01.known_matcher,
     "trusted_base": ["Spec: FirstSuch over the glob relation (Props/C04.lean), glob relation of C05",
                      "the id-returning handlers and scripted socket of the harness"],
-    "assumptions": ["patterns and Host values are valid UTF-8"],
+    "assumptions": ["patterns and Host values are valid UTF-8", "tokio runtime: every 8th generated application is also served by the real tokio App::run on a loopback port (HTTP requests only; bytes seen by the client compared with the model)"],
+    "extra_harness": ["harness-tokio"],
     "design_ref": "6.4",
     "level_text": "getHandler_some_iff: for every application (any number of sub-apps and routes), Host and path, the model's "
                   "handler choice is exactly 'first matching route of the first matching host, else first matching "
